@@ -175,3 +175,20 @@ let in_child (f : unit -> string) : child_end =
      | Unix.WEXITED c -> Exited (c, Buffer.contents b)
      | Unix.WSIGNALED s -> Signaled (s, Buffer.contents b)
      | Unix.WSTOPPED s -> Signaled (s, Buffer.contents b))
+
+(* run [f] on a fresh accumulator in a forked child and merge what it recorded;
+   returns None when the child completed, Some signal when it was killed *)
+let with_child_acc (acc : acc) (f : acc -> unit) : int option =
+  let idx = !cur_index in
+  match in_child (fun () -> cur_index := idx; let a = new_acc () in f a; Marshal.to_string a []) with
+  | Exited (_, s) when String.length s > 16 && (String.length s < 4 || String.sub s 0 4 <> "EXN:") ->
+    let a : acc = Marshal.from_string s 0 in
+    acc.evals <- acc.evals + a.evals;
+    Hashtbl.iter (fun k () -> Hashtbl.replace acc.distinct k ()) a.distinct;
+    List.iter (fun smp -> if acc.nsamples < 12 then (acc.samples <- smp :: acc.samples; acc.nsamples <- acc.nsamples + 1)) (List.rev a.samples);
+    List.iter (fun fl -> if List.length acc.failures < max_failures then acc.failures <- fl :: acc.failures) (List.rev a.failures);
+    Hashtbl.iter (fun k v -> bumpn acc k v) a.dist;
+    acc.notes <- a.notes @ acc.notes;
+    None
+  | Exited (_, s) -> acc.notes <- ("child_exception", JS s) :: acc.notes; Some 0
+  | Signaled (sg, _) -> Some sg
